@@ -34,9 +34,14 @@ inductive Store
 * `lengthPreserved` — does not touch `_npts` and keeps `len(_values)` (in-place writes, same-length copy,
                       or does not write `_values` at all);
 * `notUpdated`      — replaces `_values` by an array of another length without assigning `_npts`
-                      (never correct; this is the value a row gets when the `_npts` line is dropped). -/
+                      (never correct; this is the value a row gets when the `_npts` line is dropped);
+* `lengthOf q`      — replaces `_values`, without assigning `_npts`, by an array that has the length of the value
+                      of the (record-shaped, lazily cached) property `q` the method has read
+                      (`remove_rolling_average`: `self._values = acc`, `len(acc) = len(self.velocity)`): the
+                      length is kept exactly when that cached value was computed from the current record — so
+                      this row's correctness depends on C04. -/
 inductive NptsEffect
-  | updated | lengthPreserved | notUpdated
+  | updated | lengthPreserved | notUpdated | lengthOf (q : String)
   deriving DecidableEq, Repr
 
 /-- one store into an input attribute -/
@@ -166,14 +171,26 @@ instance (tbl : CacheTable) (inp : String) : Decidable (CopiesOf tbl inp) :=
 def AllCopies (tbl : CacheTable) : Prop := CopiesOf tbl valuesInput
 instance (tbl : CacheTable) : Decidable (AllCopies tbl) := inferInstanceAs (Decidable (_ = true))
 
+/-- C05.a, literal premise of the design: *every* store of *every* input is a copy (or in place) -/
+def everyStoreCopies (tbl : CacheTable) : Bool :=
+  tbl.methods.all fun m => m.writes.all fun w => !(w.store == .reference)
+def EveryStoreCopies (tbl : CacheTable) : Prop := everyStoreCopies tbl = true
+instance (tbl : CacheTable) : Decidable (EveryStoreCopies tbl) := inferInstanceAs (Decidable (_ = true))
+
 /-- every input some row writes in place is never stored by reference (so in-place writes hit owned arrays) -/
 def inplaceOwned (tbl : CacheTable) : Bool :=
   tbl.methods.all fun m => m.writes.all fun w => !(w.store == .inplace) || copiesOf tbl w.input
 def InplaceOwned (tbl : CacheTable) : Prop := inplaceOwned tbl = true
 instance (tbl : CacheTable) : Decidable (InplaceOwned tbl) := inferInstanceAs (Decidable (_ = true))
 
-/-- C05.b: no row replaces the record by one of another length without assigning `_npts` -/
-def nptsOK (tbl : CacheTable) : Bool := tbl.methods.all fun m => m.npts != .notUpdated
+/-- C05.b: no row replaces the record by one of another length without assigning `_npts`; a row that takes the
+new length from a cached property `q` has read `q`, `q` is generated from `_values`, and `_values` is owned -/
+def nptsOK (tbl : CacheTable) : Bool :=
+  tbl.methods.all fun m =>
+    match m.npts with
+    | .notUpdated => false
+    | .lengthOf q => m.reads.contains q && (deps tbl q).contains valuesInput && copiesOf tbl valuesInput
+    | _ => true
 def NptsOK (tbl : CacheTable) : Prop := nptsOK tbl = true
 instance (tbl : CacheTable) : Decidable (NptsOK tbl) := inferInstanceAs (Decidable (_ = true))
 
@@ -280,11 +297,18 @@ def bumpClear (m : MethodRow) (s : Obj) : Obj :=
     ver := fun i => if (writtenInputs m).contains i then s.ver i + 1 else s.ver i
     cache := fun g => if m.ctor || m.clears.contains g || m.fills.contains g then none else s.cache g }
 
-def setLen (m : MethodRow) (newLen : Nat) (s : Obj) : Obj :=
+/-- for a `lengthOf q` row: was the value of `q` the method read computed from the current record? -/
+def lenFresh (tbl : CacheTable) (m : MethodRow) (s : Obj) : Bool :=
+  match m.npts with
+  | .lengthOf q => (read tbl s q).2 valuesInput == s.ver valuesInput
+  | _ => true
+
+def setLen (m : MethodRow) (newLen : Nat) (fresh : Bool) (s : Obj) : Obj :=
   match m.npts with
   | .updated => { s with len := newLen, npts := newLen }
   | .lengthPreserved => s
   | .notUpdated => { s with len := newLen }
+  | .lengthOf _ => if fresh then s else { s with len := newLen }
 
 def doFills (tbl : CacheTable) : List String → Obj → Obj
   | [], s => s
@@ -293,12 +317,14 @@ def doFills (tbl : CacheTable) : List String → Obj → Obj
     | some q => doFills tbl gs (read tbl s q.name).1
     | none => doFills tbl gs s
 
-/-- one successful call of the method of row `m` (a call that raises changes nothing and is not an `Op`) -/
+/-- one successful call of the method of row `m` (a call that raises changes nothing and is not an `Op`);
+`newLen` = length of the new record, used by rows that replace `_values` by an array whose length the table does
+not determine (`updated`, `notUpdated`, and `lengthOf q` when the cached `q` was stale) -/
 def applyRow (tbl : CacheTable) (m : MethodRow) (arg : Option Nat) (newLen : Nat) (s : Obj) : Obj :=
   let s1 := preReads tbl m.reads s
   let sa := chooseArg arg s1
   let s3 := heapWrites sa.2 m.writes sa.1
-  let s4 := setLen m newLen (bumpClear m s3)
+  let s4 := setLen m newLen (lenFresh tbl m s1) (bumpClear m s3)
   doFills tbl m.fills s4
 
 /-- the caller writes into array `k` it holds; whoever shares that array sees new content (no flag cleared) -/
@@ -316,6 +342,16 @@ inductive Op
   | read (q : String)
   | callerWrite (k : Nat)
   deriving DecidableEq, Repr
+
+/-- object operations: method calls and reads (everything but a write of the caller into an array it holds) -/
+def Op.isObj : Op → Bool
+  | .callerWrite _ => false
+  | _ => true
+
+/-- `s'` differs from `s` at most in the caches -/
+def Frame (s' s : Obj) : Prop :=
+  s'.ver = s.ver ∧ s'.len = s.len ∧ s'.npts = s.npts ∧ s'.ident = s.ident ∧ s'.content = s.content ∧
+    s'.nextId = s.nextId ∧ s'.held = s.held
 
 def step (tbl : CacheTable) (s : Obj) : Op → Obj × Option Observation
   | .mutate row arg n =>
